@@ -1065,13 +1065,18 @@ namespace Pistache::Http
         auto peer       = writer.peer();
         auto sockFd     = peer->fd();
 
-        auto buffer = buf->buffer();
-        return transport->asyncWrite(sockFd, buffer, MSG_MORE)
-            .then(
-                [=](ssize_t) {
-                    return transport->asyncWrite(sockFd, FileBuffer(fileName));
-                },
-                Async::Throw);
+        // The file is queued right behind its header: were it queued only once the header
+        // has been written, whatever is queued for the connection in between (the answer to
+        // the next pipelined request) would go out between the header and the body.
+        auto buffer    = buf->buffer();
+        auto header    = transport->asyncWrite(sockFd, buffer, MSG_MORE);
+        auto fileWrite = std::make_shared<Async::Promise<ssize_t>>(
+            transport->asyncWrite(sockFd, FileBuffer(fileName)));
+        return header.then(
+            [fileWrite](ssize_t) {
+                return std::move(*fileWrite);
+            },
+            Async::Throw);
 
 #undef OUT
     }
